@@ -270,7 +270,9 @@ func genCompat(seed uint64, tier, variant string) any {
 				}
 				for i := 0; i < nops; i++ {
 					k := pick(r, keys...)
-					switch r.IntN(7) {
+					switch r.IntN(8) {
+					case 7:
+						c.Ops = append(c.Ops, CompatOp{M: "HScan", A: []string{"h" + k}})
 					case 0:
 						c.Ops = append(c.Ops, CompatOp{M: "Set", A: []string{k, fmt.Sprintf("t%d.c%d.o%d", ti, ci, i)}})
 					case 1:
@@ -345,6 +347,9 @@ func renderCmder(c Cmder) string {
 		}
 		sort.Strings(ks)
 		return "map:" + strings.Join(ks, ",")
+	case *ScanCmd:
+		keys, cursor := v.Val()
+		return fmt.Sprintf("scan:%d:%s", cursor, strings.Join(keys, ","))
 	case *Cmd:
 		return fmt.Sprintf("cmd:%v", v.Val())
 	}
@@ -411,6 +416,8 @@ func runCompatCall(ctx context.Context, cl rueidis.Client, mode string, c Compat
 						return pl.RPush(ctx, op.A[0], op.A[1]), true, ""
 					case "LRange":
 						return pl.LRange(ctx, op.A[0], 0, -1), true, ""
+					case "HScan":
+						return pl.HScan(ctx, op.A[0], 0, "", 0), true, ""
 					}
 					return nil, false, "unknown real op"
 				})
@@ -743,6 +750,16 @@ func renderReply(method string, v resp.Value) (string, string) {
 		}
 		sort.Strings(ks)
 		return "map:" + strings.Join(ks, ","), ""
+	case "HScan":
+		// (a result type whose decoder writes its error only on failure: a committed transaction must still clear
+		// the "not executed" placeholder)
+		var xs []string
+		if len(v.A) == 2 {
+			for _, el := range v.A[1].A {
+				xs = append(xs, el.S)
+			}
+			return "scan:" + v.A[0].S + ":" + strings.Join(xs, ","), ""
+		}
 	}
 	return "?", ""
 }
